@@ -181,6 +181,8 @@ pub fn check_c06(tier: &str) -> ! {
 	run_menu(&mut rep, c06_programs(true), 0);
 	let _ = tier;
 	// "keys of different threads are independent": no key-carrying value may cross to another thread at all
+	// the key accounting also holds when a call ends because a raw lock operation panicked
+	crate::faults::c06_key_after_fault(&mut rep);
 	crate::corpus::run_route("send-", "C06", &mut rep);
 	crate::corpus::run_route("share-key-", "C06", &mut rep);
 	rep.set("rule", format!("{}; C06 oracle: after every step ThreadKey::get() (dropped again when Some) succeeds iff the per-thread key model says Free; inside every closure it fails; compile-time clause: every public key-carrying type (key, guards, key-returning errors, over raw locks with sendable guards too) is rejected as Send by rustc, each next to a compiling twin", menu_rule()));
